@@ -28,7 +28,8 @@ class ipaddress(FieldType):
         try:
             return self.val == ip_address(b)
         except ValueError:
-            return False
+            # not an address: let the other operand decide (Python falls back to "not equal")
+            return NotImplemented
 
     def __hash__(self) -> int:
         return hash(self.val)
@@ -63,7 +64,8 @@ class ipnetwork(FieldType):
         try:
             return self.val == ip_network(b)
         except ValueError:
-            return False
+            # not a network: let the other operand decide (Python falls back to "not equal")
+            return NotImplemented
 
     def __hash__(self) -> int:
         return hash(self.val)
